@@ -805,9 +805,16 @@ type hfFinding struct {
 	Got      observation `json:"observed"`
 	Interp   interp      `json:"interpretation"`
 	RefOrder string      `json:"reference_route_order"`
+	// History > 0: differs from the reference only after the History requests that precede it in the request table
+	// (hfRequests) were served between the last operation and the request
+	History int `json:"requests_served_before,omitempty"`
+	QI      int `json:"-"`
 }
 
 func (f hfFinding) message() string {
+	if f.History > 0 {
+		f.OpsText += fmt.Sprintf(" > the %d requests that precede this one in the request table", f.History)
+	}
 	return fmt.Sprintf("routes as written (in order): %s\nhistory: boot > %s\nrequest: %s\nexpected (reference on the order as written): status %d allow %v route %q target %q\nobserved: status %d allow %v stored %d route %q target %q residue %d",
 		hfRoutesText(f.Cfg.Routes), f.OpsText, f.Req, f.Expect.Status, f.Expect.Allow, f.Expect.Route, f.Expect.Target,
 		f.Got.Status, f.Got.Allow, f.Got.Stored, f.Got.Route, f.Got.Target, f.Got.Residue)
@@ -815,6 +822,11 @@ func (f hfFinding) message() string {
 
 // hfRunOne: fresh boot, the operations, one request (replay / recheck / samples).
 func hfRunOne(routes []hfRoute, ops []hfOp, q reqSpec, m *memo, slot int) (bad bool, e expectation, o observation, l *hfLive, fileNow string, err error) {
+	return hfRunAfter(routes, ops, nil, q, m, slot)
+}
+
+// hfRunAfter: as hfRunOne, with the requests in before served (in order) between the last operation and the request.
+func hfRunAfter(routes []hfRoute, ops []hfOp, before []reqSpec, q reqSpec, m *memo, slot int) (bad bool, e expectation, o observation, l *hfLive, fileNow string, err error) {
 	l, _, err = hfBoot(routes, slot)
 	if err != nil {
 		return false, e, o, nil, "", err
@@ -832,6 +844,11 @@ func hfRunOne(routes []hfRoute, ops []hfOp, q reqSpec, m *memo, slot int) (bad b
 	}
 	if data, rerr := os.ReadFile(l.b.a.ConfigPath); rerr == nil {
 		fileNow = string(data) // recorded only
+	}
+	for _, p := range before {
+		if _, err = l.b.serve(p, p.raw()); err != nil {
+			return false, e, o, l, fileNow, err
+		}
 	}
 	o, err = l.b.serve(q, q.raw())
 	if err != nil {
@@ -966,7 +983,7 @@ func runHistoryFamily(r *runner.Run, m *memo, deadline time.Time) bool {
 			continue
 		}
 		finds[key] = hfFinding{Rank: rank, Cfg: c, Ops: append([]hfOp(nil), ops...), Req: q, Config: hfDSL(c.Routes, 0), OpsText: hfOpsText(ops),
-			ReqRaw: q.raw(), Remote: reqRemotes[q.Remote], Expect: f.e, Got: f.o, Interp: m.ip, RefOrder: hfRoutesText(c.Routes)}
+			ReqRaw: q.raw(), Remote: reqRemotes[q.Remote], Expect: f.e, Got: f.o, Interp: m.ip, RefOrder: hfRoutesText(c.Routes), QI: f.qi}
 	}
 	keys := make([]string, 0, len(finds))
 	for k := range finds {
@@ -975,11 +992,20 @@ func runHistoryFamily(r *runner.Run, m *memo, deadline time.Time) bool {
 	sort.Strings(keys)
 	for _, k := range keys {
 		f := finds[k]
-		if _, _, _, l, fileNow, err := hfRunOne(f.Cfg.Routes, f.Ops, f.Req, m, 920); err == nil && l != nil {
+		bad, _, _, l, fileNow, err := hfRunOne(f.Cfg.Routes, f.Ops, f.Req, m, 920)
+		if err == nil && l != nil {
 			f.Answers, f.FileNow = l.answers, fileNow
 		}
+		// the request alone after the operations, else after the requests served before it in the same table: an
+		// outcome that earlier requests changed is a violation of its own class
+		var before []reqSpec
+		if (err != nil || !bad) && f.QI > 0 {
+			f.History = f.QI
+			before = hfRequests(f.Cfg.Routes)[:f.QI]
+			k = strings.Replace(k, "history:", "history-after-requests:", 1)
+		}
 		r.Violation(k, f.message(), f, func() bool {
-			bad, _, _, _, _, err := hfRunOne(f.Cfg.Routes, f.Ops, f.Req, m, 921)
+			bad, _, _, _, _, err := hfRunAfter(f.Cfg.Routes, f.Ops, before, f.Req, m, 921)
 			return err == nil && bad
 		})
 	}
@@ -1012,9 +1038,10 @@ func replayHistory(r *runner.Run, data []byte, m *memo) (ok bool) {
 	var doc struct {
 		Key    string `json:"key"`
 		Replay struct {
-			Cfg hfCfg   `json:"config"`
-			Ops []hfOp  `json:"operations"`
-			Req reqSpec `json:"request"`
+			Cfg     hfCfg   `json:"config"`
+			Ops     []hfOp  `json:"operations"`
+			Req     reqSpec `json:"request"`
+			History int     `json:"requests_served_before"`
 		} `json:"replay"`
 	}
 	if json.Unmarshal(data, &doc) != nil || doc.Replay.Cfg.Family != "history" {
@@ -1034,7 +1061,20 @@ func replayHistory(r *runner.Run, data []byte, m *memo) (ok bool) {
 		r.Infra("replay: history family case out of range")
 		return true
 	}
-	bad, e, o, l, fileNow, err := hfRunOne(c.Routes, ops, q, m, 923)
+	var before []reqSpec
+	if n := doc.Replay.History; n > 0 {
+		table := hfRequests(c.Routes)
+		for i, p := range table {
+			if p == q && i >= n {
+				before = table[i-n : i]
+			}
+		}
+		if before == nil {
+			r.Infra("replay: history family case: request history out of range")
+			return true
+		}
+	}
+	bad, e, o, l, fileNow, err := hfRunAfter(c.Routes, ops, before, q, m, 923)
 	if err != nil {
 		r.Infra("replay: %v", err)
 		return true
@@ -1047,7 +1087,7 @@ func replayHistory(r *runner.Run, data []byte, m *memo) (ok bool) {
 	r.Set("rule", "replay of one recorded case")
 	if bad {
 		f := hfFinding{Cfg: c, Ops: ops, Req: q, Config: hfDSL(c.Routes, 0), OpsText: hfOpsText(ops), Answers: l.answers, FileNow: fileNow,
-			ReqRaw: q.raw(), Remote: reqRemotes[q.Remote], Expect: e, Got: o, Interp: m.ip, RefOrder: hfRoutesText(c.Routes)}
+			ReqRaw: q.raw(), Remote: reqRemotes[q.Remote], Expect: e, Got: o, Interp: m.ip, RefOrder: hfRoutesText(c.Routes), History: len(before)}
 		key := doc.Key
 		if key == "" {
 			key = "history:after-" + hfLastOp(ops) + ":" + hfMismatch(l.file, e, o)
